@@ -17,7 +17,8 @@ use crate::{
 };
 
 use super::{
-    superficial_loss::get_superficial_loss_ratio, AffiliatePortfolioSecurityStatuses,
+    all_affiliate_share_balance_after, superficial_loss::get_superficial_loss_ratio,
+    AffiliatePortfolioSecurityStatuses,
 };
 
 type Error = String;
@@ -220,6 +221,15 @@ fn delta_for_tx(
         amount_per_share * shares.into() * fx_rate.exchange_rate.into()
     };
 
+    let all_affiliates_share_balance_after =
+        |new_share_balance: GreaterEqualZeroDecimal| {
+            GreaterEqualZeroDecimal::try_from(all_affiliate_share_balance_after(
+                *pre_tx_status.all_affiliate_share_balance,
+                *pre_tx_status.share_balance,
+                *new_share_balance,
+            ))
+        };
+
     let mut new_share_balance = pre_tx_status.share_balance;
     let mut new_all_affiliates_share_balance =
         pre_tx_status.all_affiliate_share_balance;
@@ -236,7 +246,15 @@ fn delta_for_tx(
             new_share_balance =
                 pre_tx_status.share_balance + buy_specs.shares.into();
             new_all_affiliates_share_balance =
-                pre_tx_status.all_affiliate_share_balance + buy_specs.shares.into();
+                all_affiliates_share_balance_after(new_share_balance).map_err(
+                    |_| {
+                        format!(
+                            "Buy order on {} caused all-affiliate share \
+                            balance to become negative",
+                            tx.trade_date
+                        )
+                    },
+                )?;
             if let Some(old_acb) = pre_tx_status.total_acb {
                 let total_price = total_local_share_value(
                     buy_specs.shares,
@@ -262,6 +280,7 @@ fn delta_for_tx(
             new_all_affiliates_share_balance = GreaterEqualZeroDecimal::try_from(
                 *pre_tx_status.all_affiliate_share_balance - *sell_specs.shares,
             )
+            .and_then(|_| all_affiliates_share_balance_after(new_share_balance))
             .map_err(|_| {
                 format!(
                     "Sell order on {} of {} shares of {} is more than the current \
@@ -368,12 +387,10 @@ fn delta_for_tx(
                     / *split_specs.ratio.pre_split,
             )
             .map_err(|e| format!("Stock split on {}: {}", tx.trade_date, e))?;
-            let share_diff = *new_share_balance - *pre_tx_status.share_balance;
             // This erroring would be strange in practice. Only if the share balance
             // was already broken.
-            new_all_affiliates_share_balance = GreaterEqualZeroDecimal::try_from(
-                *new_all_affiliates_share_balance + share_diff,
-            )
+            new_all_affiliates_share_balance =
+                all_affiliates_share_balance_after(new_share_balance)
             .map_err(|_| {
                 format!(
                     "Stock split on {} caused all-affiliate share \
